@@ -2,7 +2,7 @@ SPECIFICATION Spec
 CONSTANTS
   Clients = {"c1", "c2"}
   Ids = {"s1", "s2"}
-  MaxCalls = 2
+  MaxCalls = 3
   MapsLocked = TRUE
   SessLocked = TRUE
   OldDelete = FALSE
